@@ -1,8 +1,11 @@
 // Package c14 joins the client's auth writers with the server's authenticators (property C14).
 //
-// A case is a SESSION on one client.Runtime: one or more steps.  A step first (re)configures
-// the Runtime (DefaultAuthentication, Debug, base path with static query parameters), then
-// describes a request: per-operation auth writers, an optional Authorization header / headers /
+// A case is a SESSION on two client.Runtimes A and B: one or more steps.  A step first
+// (re)configures one Runtime (DefaultAuthentication, Debug, base path with static query
+// parameters), then makes a request through it - with a fresh ClientOperation value or by
+// submitting again a value of the caller that an earlier step created (OpRef) - and logs
+// whether the caller's operation value is as it was (`returned`).  The request is described by:
+// per-operation auth writers, an optional Authorization header / headers /
 // query / form parameters set by the params writer, static query parameters of the path
 // pattern.  The real client builds the request (Runtime.CreateHttpRequest) or sends it to a
 // real httptest.Server (Runtime.Submit); every authenticator of the step's list is run on (a
@@ -19,6 +22,7 @@ import (
 	"net/http"
 	"net/http/httptest"
 	"net/url"
+	"reflect"
 	"strings"
 	"sync"
 
@@ -73,6 +77,9 @@ type Step struct {
 	Media      string // none | urlencoded | multipart
 	Transport  string // direct | server
 	Auths      []Auth
+	Rt         int // the Runtime configured and used: 1 (A) | 2 (B); 0 = 1
+	OpRef      int // 0: a fresh ClientOperation value; k > 0: the caller's value number k, created by the first step that names it
+	//                  (later steps with that number submit the same value again: their request description is the first one's)
 }
 
 // Case: the steps made one after the other on ONE Runtime.
@@ -105,7 +112,7 @@ func (c Step) JSON() M {
 	}
 	return M{"op": wJSON(c.Op), "def": wJSON(c.Def), "debug": c.Debug, "bstatic": kvJSON(c.BaseStatic), "pstatic": kvJSON(c.PatStatic),
 		"authz": trace.B(c.Authz), "hdrs": kvJSON(c.Hdrs), "query": kvJSON(c.Query),
-		"form": kvJSON(c.Form), "media": c.Media, "transport": c.Transport, "auths": as}
+		"form": kvJSON(c.Form), "media": c.Media, "transport": c.Transport, "auths": as, "rt": c.Rt, "opref": c.OpRef}
 }
 func (c Case) JSON() M {
 	steps := make([]M, 0, len(c.Steps))
@@ -141,7 +148,7 @@ func caseFrom(d M) Case {
 func stepFrom(d M) Step {
 	c := Step{Op: wFrom(d["op"]), Def: wFrom(d["def"]), Debug: drv.Bool(d["debug"]), BaseStatic: kvFrom(d["bstatic"]), PatStatic: kvFrom(d["pstatic"]),
 		Authz: trace.Str(d["authz"]), Hdrs: kvFrom(d["hdrs"]), Query: kvFrom(d["query"]),
-		Form: kvFrom(d["form"]), Media: drv.Str(d["media"]), Transport: drv.Str(d["transport"])}
+		Form: kvFrom(d["form"]), Media: drv.Str(d["media"]), Transport: drv.Str(d["transport"]), Rt: drv.Int(d["rt"]), OpRef: drv.Int(d["opref"])}
 	for _, e := range drv.List(d["auths"]) {
 		m := drv.Map(e)
 		a := Auth{Kind: drv.Str(m["kind"]), Name: trace.Str(m["name"]), Scheme: drv.Str(m["scheme"]), In: drv.Str(m["in"]), Realm: drv.Str(m["realm"]),
@@ -364,21 +371,63 @@ func server() *httptest.Server {
 	return srv
 }
 
+// session is the application's state: its two Runtimes and the ClientOperation values it keeps for re-use.
+type session struct {
+	rts    [2]*client.Runtime
+	shared map[int]*sharedOp
+}
+
+type sharedOp struct {
+	op   *runtime.ClientOperation
+	desc Step                         // the request description the value was created from
+	auth runtime.ClientAuthInfoWriter // the AuthInfo the caller gave it
+}
+
+func (s *session) runtime(i int) *client.Runtime {
+	if i != 2 {
+		i = 1
+	}
+	if s.rts[i-1] == nil {
+		rt := client.New("h:1", "/api", []string{"http"})
+		rt.SetLogger(silentLogger{})
+		s.rts[i-1] = rt
+	}
+	return s.rts[i-1]
+}
+
+// authInfoState describes the AuthInfo of an operation value: "nil" | "set", and whether it is the writer w
+func authInfoState(op *runtime.ClientOperation, w runtime.ClientAuthInfoWriter) (string, bool) {
+	if op.AuthInfo == nil {
+		return "nil", w == nil
+	}
+	if w == nil {
+		return "set", false
+	}
+	va, vb := reflect.ValueOf(op.AuthInfo), reflect.ValueOf(w)
+	if va.Kind() == reflect.Func && vb.Kind() == reflect.Func {
+		return "set", va.Pointer() == vb.Pointer()
+	}
+	same := false
+	func() {
+		defer func() { _ = recover() }()
+		same = op.AuthInfo == w
+	}()
+	return "set", same
+}
+
 func execute(c *drv.Ctx, d M) bool {
 	cs := caseFrom(d)
 	nontrivial := false
-	// one Runtime for the whole session
-	rt := client.New("h:1", "/api", []string{"http"})
-	rt.SetLogger(silentLogger{})
+	ses := &session{shared: map[int]*sharedOp{}}
 	for i := range cs.Steps {
-		if executeStep(c, rt, &cs.Steps[i]) {
+		if executeStep(c, ses, &cs.Steps[i]) {
 			nontrivial = true
 		}
 	}
 	return nontrivial
 }
 
-func executeStep(c *drv.Ctx, rt *client.Runtime, cs *Step) bool {
+func executeStep(c *drv.Ctx, ses *session, cs *Step) bool {
 	nontrivial := false
 	emit := func(a Auth, o obs) {
 		if o.called {
@@ -389,13 +438,43 @@ func executeStep(c *drv.Ctx, rt *client.Runtime, cs *Step) bool {
 	failed := func(a Auth) {
 		c.W.Event("auth", M{"a": a.JSON(), "o": obs{scopes: []string{}}.JSON(), "built": false})
 	}
+	rtn := cs.Rt
+	if rtn != 2 {
+		rtn = 1
+	}
+	rt := ses.runtime(rtn)
 	cs.configure(rt)
-	c.W.Event("configure", M{"def": wJSON(cs.Def), "debug": cs.Debug, "bstatic": kvJSON(cs.BaseStatic)})
-	c.W.Event("request", M{"op": wJSON(cs.Op), "authz": trace.B(cs.Authz), "hdrs": kvJSON(cs.Hdrs), "query": kvJSON(cs.Query), "form": kvJSON(cs.Form),
-		"media": cs.Media, "pstatic": kvJSON(cs.PatStatic), "transport": cs.Transport})
+	c.W.Event("configure", M{"rt": rtn, "def": wJSON(cs.Def), "debug": cs.Debug, "bstatic": kvJSON(cs.BaseStatic)})
+	// the operation value: fresh, or the one the caller kept
+	desc := *cs
+	var op *runtime.ClientOperation
+	if cs.OpRef > 0 {
+		so, ok := ses.shared[cs.OpRef]
+		if !ok {
+			op = cs.operation()
+			so = &sharedOp{op: op, desc: *cs, auth: op.AuthInfo}
+			ses.shared[cs.OpRef] = so
+		}
+		op, desc = so.op, so.desc
+	} else {
+		op = cs.operation()
+	}
+	callerAuth := op.AuthInfo // the AuthInfo the caller gave the value
+	if cs.OpRef > 0 {
+		callerAuth = ses.shared[cs.OpRef].auth
+	}
+	before := "set"
+	if callerAuth == nil {
+		before = "nil"
+	}
+	c.W.Event("request", M{"rt": rtn, "opref": cs.OpRef, "op": wJSON(desc.Op), "authz": trace.B(desc.Authz), "hdrs": kvJSON(desc.Hdrs), "query": kvJSON(desc.Query),
+		"form": kvJSON(desc.Form), "media": desc.Media, "pstatic": kvJSON(desc.PatStatic), "transport": cs.Transport})
+	returned := func() {
+		after, same := authInfoState(op, callerAuth)
+		c.W.Event("returned", M{"before": before, "after": after, "same": same})
+	}
 	if cs.Transport == "server" {
 		s := server()
-		op := cs.operation()
 		rt.Host = s.Listener.Addr().String()
 		srvMu.Lock()
 		srvCase, srvObs = cs, nil
@@ -419,11 +498,15 @@ func executeStep(c *drv.Ctx, rt *client.Runtime, cs *Step) bool {
 			}
 			emit(a, out[i])
 		}
+		returned()
 		return nontrivial
 	}
 	rt.Host = "h:1"
 	for _, a := range cs.Auths {
-		op := cs.operation()
+		if cs.OpRef == 0 {
+			op = cs.operation()
+			callerAuth = op.AuthInfo
+		}
 		req, err := func() (r *http.Request, err error) {
 			defer func() {
 				if e := recover(); e != nil {
@@ -438,6 +521,7 @@ func executeStep(c *drv.Ctx, rt *client.Runtime, cs *Step) bool {
 		}
 		emit(a, runAuth(a, req))
 	}
+	returned()
 	return nontrivial
 }
 
